@@ -68,9 +68,13 @@ pub enum PsKind {
     Long,
     /// page i uses kind i mod 4
     Mixed,
+    /// the state returned with the FIRST page is the zero-length byte string (HAS_MORE_PAGES + empty state); others [i]
+    Empty1,
+    /// the state returned with the second page is zero-length; others [i]
+    Empty2,
 }
 impl PsKind {
-    pub const ALL: [PsKind; 5] = [PsKind::OneByte, PsKind::Zero, PsKind::Ff, PsKind::Long, PsKind::Mixed];
+    pub const ALL: [PsKind; 7] = [PsKind::OneByte, PsKind::Zero, PsKind::Ff, PsKind::Long, PsKind::Mixed, PsKind::Empty1, PsKind::Empty2];
     pub fn name(self) -> &'static str {
         match self {
             PsKind::OneByte => "one-byte",
@@ -78,6 +82,8 @@ impl PsKind {
             PsKind::Ff => "ff",
             PsKind::Long => "long300",
             PsKind::Mixed => "mixed",
+            PsKind::Empty1 => "empty-at-1",
+            PsKind::Empty2 => "empty-at-2",
         }
     }
     pub fn from_name(s: &str) -> Option<PsKind> {
@@ -89,6 +95,8 @@ impl PsKind {
             PsKind::Zero => vec![0x00; i],
             PsKind::Ff => vec![0xFF; i],
             PsKind::Long => (0..300usize).map(|j| if j == 0 { i as u8 } else { (j * 7 + i) as u8 }).collect(),
+            PsKind::Empty1 => if i == 1 { Vec::new() } else { vec![i as u8] },
+            PsKind::Empty2 => if i == 2 { Vec::new() } else { vec![i as u8] },
             PsKind::Mixed => {
                 let k = [PsKind::OneByte, PsKind::Zero, PsKind::Ff, PsKind::Long][i % 4];
                 // keep mixed states distinct from each other: lengths / first bytes differ per i within each kind
@@ -113,9 +121,12 @@ pub enum Fault {
     Delay,
     /// INVALID: never retried
     Invalid,
+    /// UNPREPARED (the node evicted the statement mid-paging; prepared pager only): the connection re-prepares and
+    /// re-executes the SAME page request transparently; a second UNPREPARED in a row surfaces
+    Unprepared,
 }
 impl Fault {
-    pub const ALL: [Fault; 6] = [Fault::ReadTimeout, Fault::Unavailable, Fault::Overloaded, Fault::Reset, Fault::Delay, Fault::Invalid];
+    pub const ALL: [Fault; 7] = [Fault::ReadTimeout, Fault::Unavailable, Fault::Overloaded, Fault::Reset, Fault::Delay, Fault::Invalid, Fault::Unprepared];
     pub fn name(self) -> &'static str {
         match self {
             Fault::ReadTimeout => "read-timeout",
@@ -124,6 +135,7 @@ impl Fault {
             Fault::Reset => "reset",
             Fault::Delay => "delay",
             Fault::Invalid => "invalid",
+            Fault::Unprepared => "unprepared",
         }
     }
     pub fn from_name(s: &str) -> Option<Fault> {
@@ -249,6 +261,8 @@ pub enum Verdict {
     Surface,
     /// not an error: this attempt is answered (late)
     Served,
+    /// the same request is sent again on the same connection after a transparent re-prepare
+    Reexecute,
 }
 
 #[derive(Clone, Debug)]
@@ -294,10 +308,14 @@ pub fn expect(case: &Case) -> Expect {
         let mut unavailable_retried = false;
         let mut targets_left = NODES; // distinct nodes the plan can still offer
         let mut served = false;
+        let mut prev_unprepared = false;
         for f in case.page_faults(p) {
             e.requests.push(p);
+            let was_unprepared = std::mem::replace(&mut prev_unprepared, f == Fault::Unprepared);
             let v = match f {
                 Fault::Delay => Verdict::Served,
+                Fault::Unprepared if !was_unprepared => Verdict::Reexecute,
+                Fault::Unprepared => Verdict::Surface,
                 Fault::ReadTimeout if !read_timeout_retried => {
                     read_timeout_retried = true;
                     Verdict::RetrySame
@@ -343,7 +361,9 @@ pub fn expect(case: &Case) -> Expect {
 /// and, per page, behind a fault that surfaces.
 pub fn admissible(case: &Case) -> bool {
     let e = expect(case);
-    e.verdicts.len() == case.faults.len() && case.faults.iter().all(|(p, _)| *p < case.split.len())
+    e.verdicts.len() == case.faults.len()
+        && case.faults.iter().all(|(p, _)| *p < case.split.len())
+        && (case.mode == Mode::Prepared || case.faults.iter().all(|(_, f)| *f != Fault::Unprepared))
 }
 
 // ------------------------------------------------------------------------------------------------
@@ -413,6 +433,13 @@ fn script_reply(shared: &Arc<Mutex<Shared>>, ctx: &mockcluster::ReqCtx) -> Reply
         Some(Fault::Unavailable) => Reply::error(ErrorBody::unavailable(cl, 2, 1)),
         Some(Fault::Overloaded) => Reply::error(ErrorBody::overloaded("c07: overloaded")),
         Some(Fault::Invalid) => Reply::error(ErrorBody::invalid("c07: scripted non-retryable error")),
+        Some(Fault::Unprepared) => match ctx.request.prepared_id() {
+            // answered as if the node had evicted the statement. The node's id cache itself is left alone: an
+            // eviction is per node, and a late request of an earlier (dropped) stream of this world could evict
+            // between this case's PREPARE and its re-EXECUTE - a second UNPREPARED that no script asked for
+            Some(id) => Reply::error(ErrorBody::unprepared(id)),
+            None => Reply::error(ErrorBody::invalid("c07: UNPREPARED scripted for an unprepared statement")),
+        },
         Some(Fault::Reset) => {
             let env: mockcluster::wire::Envelope = normal.into();
             let len = env.encode_frame(ctx.stream).len();
@@ -919,7 +946,9 @@ fn describe_pages(v: &[usize]) -> String {
 
 fn classify_error(e: &str) -> &'static str {
     let l = e.to_ascii_lowercase();
-    if l.contains("invalid") {
+    if l.contains("unprepared") {
+        "unprepared"
+    } else if l.contains("invalid") {
         "invalid"
     } else if l.contains("overloaded") {
         "overloaded"
